@@ -8,6 +8,7 @@ import Driver.ObjCmd
 import Driver.GcCmd
 import Driver.FlagCmd
 import Driver.CliCmd
+import Driver.SemCmd
 /-!
 # Line-protocol driver over the executable models
 
@@ -33,6 +34,7 @@ def step (s : DState) (line : String) : DState × String :=
   | ["heap", o, sc] => (s, heapLine o sc)
   | ["flag", n, o] => (s, flagLine n o)
   | ["cli", c, a, e] => (s, cliLine c a e)
+  | ["sem", p, e, a] => (s, semLine p e a)
   | _ => (s, "bad-op")
 
 partial def loop (h : IO.FS.Stream) (out : IO.FS.Stream) (s : DState) : IO Unit := do
